@@ -50,6 +50,8 @@ def operand_value(o, asg):
         return o[1]
     if k == "idx":
         return operand_value(o[1], asg)[o[2]]
+    if k == "fn":          # the result of a symbolic function used as a value
+        return plain_bigger(operand_value(o[1], asg), operand_value(o[2], asg))
     raise ValueError(o)
 
 
@@ -85,6 +87,8 @@ def operand_vars(o):
         return {o[1]}
     if o[0] == "idx":
         return operand_vars(o[1])
+    if o[0] == "fn":
+        return operand_vars(o[1]) | operand_vars(o[2])
     return set()
 
 
@@ -183,6 +187,8 @@ class Env:
             return o[1]
         if k == "idx":
             return self.operand(o[1])[o[2]]
+        if k == "fn":
+            return bigger(self.operand(o[1]), self.operand(o[2]))
         raise ValueError(o)
 
     def build(self, e):
